@@ -16,6 +16,11 @@ func emit(id string, c rtgen.CaseT, st *hx.Stats) string {
 	ask := rtgen.AskNames(c.Script)
 	l := hx.NewLine(id)
 	l.Bool(c.Eng.Compiled).Nat(int(c.Eng.BloomSize)).Nat(c.Eng.BloomK).Bool(c.Eng.Version != "")
+	if c.Warm && c.WarmupAt <= len(c.Script) { // explicit Warmup() before registration WarmupAt
+		l.Nat(c.WarmupAt + 1)
+	} else {
+		l.Nat(0)
+	}
 	rtgen.InputTokens(l, c, ask)
 	in := l.String()
 	base := c
@@ -58,6 +63,9 @@ func emit(id string, c rtgen.CaseT, st *hx.Stats) string {
 		}
 		if c.Warm {
 			st.Count("script_warmup_before_registrations")
+			if c.Eng.Version != "" {
+				st.Count("version_tree_warmup_before_registrations")
+			}
 		}
 		if c.Eng.Version != "" {
 			st.Count("engine_version_tree")
@@ -112,6 +120,10 @@ func fixed() []rtgen.CaseT {
 		{Script: []rtgen.RegT{reg(G, "/users/:id"), reg(G, "/users/me")}, Req: rtgen.ReqT{Method: G, Path: "/users/me"}, Eng: on, Warm: true, WarmupAt: 0},
 		{Script: []rtgen.RegT{reg(G, "/posts/:id"), reg(G, "/users/me"), reg(G, "/users/:id")}, Req: rtgen.ReqT{Method: G, Path: "/users/me"}, Eng: on, Warm: true, WarmupAt: 1},
 		{Script: []rtgen.RegT{reg(G, "/health"), reg(G, "/users/me"), reg(G, "/users/:id")}, Req: rtgen.ReqT{Method: G, Path: "/users/me"}, Eng: on, Warm: true, WarmupAt: 1},
+		// version tree, explicit Warmup() first: every route registers immediately, each Where* re-registers it
+		{Script: []rtgen.RegT{reg(G, "/a/b"), reg(G, "/a/:x", rtgen.ConsT{Name: "x", Kind: "where", Arg: "[a-z]+"})}, Req: rtgen.ReqT{Method: G, Path: "/a/b"}, Eng: rtgen.EngineT{Compiled: true, Version: "v1"}, Warm: true, WarmupAt: 0},
+		{Script: []rtgen.RegT{reg(G, "/a/b"), reg(G, "/a/b"), reg(G, "/a/:x", rtgen.ConsT{Name: "x", Kind: "int"}), reg(G, "/a/*")}, Req: rtgen.ReqT{Method: G, Path: "/a/7"}, Eng: rtgen.EngineT{Compiled: true, Version: "v1"}, Warm: true, WarmupAt: 1},
+		{Script: []rtgen.RegT{reg(G, "/a/b"), reg(G, "/a/b"), reg(G, "/a/:x", rtgen.ConsT{Name: "x", Kind: "int"})}, Req: rtgen.ReqT{Method: G, Path: "/a/b"}, Eng: rtgen.EngineT{Compiled: true, Version: "v1"}, Warm: true, WarmupAt: 1},
 		mk([]rtgen.RegT{reg(G, "/a/:x ")}, G, "/a/1", on), mk([]rtgen.RegT{reg(G, "/ ")}, G, "/", on),
 		mk([]rtgen.RegT{reg(G, "/u/:id", rtgen.ConsT{Name: "id", Kind: "int"}, rtgen.ConsT{Name: "id", Kind: "where", Arg: "[1-9].*"})}, G, "/u/07", on),
 		mk([]rtgen.RegT{reg(G, "/u/:id", rtgen.ConsT{Name: "uid", Kind: "int"})}, G, "/u/7", on),
@@ -164,11 +176,13 @@ func main() {
 			script := rtgen.GenScriptWide(r)
 			nr := r.Chance(1, 4)
 			eng := genEngine(r)
-			// explicit r.Warmup() before or among the registrations (main tree only). The routes after it
-			// are registered immediately; they carry no constraints here, because every Where* would
-			// re-register them (RemoveRoute swaps the dynamic list, which the model does not replay).
+			// explicit r.Warmup() before or among the registrations. The routes after it are registered
+			// immediately. In the main tree they carry no constraints here, because every Where* would
+			// re-register them (RemoveRoute swaps the dynamic list, which the model does not replay); in a
+			// version tree they keep them (re-registration overwrites the leaf in place, the version cache
+			// stays as compiled at warm-up — Model/Compiler `Opts.warmAt`).
 			warm, warmAt := false, 0
-			if eng.Version == "" && r.Chance(1, 4) {
+			if r.Chance(1, 4) || (eng.Version != "" && r.Chance(1, 3)) {
 				warm = true
 				warmAt = r.Intn(len(script) + 1)
 				switch r.Intn(3) {
@@ -182,9 +196,11 @@ func main() {
 						}
 					}
 				}
-				script = append([]rtgen.RegT(nil), script...)
-				for k := warmAt; k < len(script); k++ {
-					script[k].Cons = nil
+				if eng.Version == "" {
+					script = append([]rtgen.RegT(nil), script...)
+					for k := warmAt; k < len(script); k++ {
+						script[k].Cons = nil
+					}
 				}
 			}
 			for j := 0; j < perScript && i < a.N; j++ {
